@@ -15,7 +15,7 @@ import re
 from fractions import Fraction
 
 from ..common import module_region, short, where
-from ..exprs import closure_of, is_param, mentions, mentions_param, strip
+from ..exprs import simplify, closure_of, is_param, mentions, mentions_param, strip
 from ..fold import Folder, Unfoldable
 from ..mirlib import Expr, Program, expr_str
 
@@ -176,13 +176,29 @@ def run(run):
     sl = prog.method("localize", r"span::Span$", "")
     if sl:
         ex = Expr(prog, sl)
-        lcs = [t for _, t in prog.calls(sl) if Program.callee_name(t).endswith("cell::Cell::localize_cell")]
+        lcs = []
+        for q in [sl] + prog.closures_of(sl):
+            lcs += [(q, t) for _, t in prog.calls(q) if Program.callee_name(t).endswith("cell::Cell::localize_cell")]
         ok = False
-        for t in lcs:
-            tlv = strip(ex.operand(t["args"][0]))
-            cellv = ex.operand(t["args"][1])
-            ok = tlv[0] == "field" and "@Some" in tlv[2] and tlv[2][-1] == "0" and strip(tlv[1])[0] == "call" and strip(tlv[1])[1].endswith("span::Span::bounds") and \
-                mentions(cellv, lambda z: z[0] == "call" and z[1].endswith("Iterator>::next"))
+        is_tl = lambda v: v[0] == "field" and "@Some" in v[2] and v[2][-1] == "0" and strip(v[1])[0] == "call" and strip(v[1])[1].endswith("span::Span::bounds") and \
+            strip(strip(v[1])[2][0])[0] == "param"
+        for q, t in lcs:
+            qex = ex if q == sl else Expr(prog, q)
+            tlv = strip(simplify(qex.operand(t["args"][0])))
+            cellv = qex.operand(t["args"][1])
+            if q == sl:
+                ok = is_tl(tlv) and mentions(cellv, lambda z: z[0] == "call" and z[1].endswith("Iterator>::next"))
+            else:
+                # `.map(|(cell, ch)| (tl.localize_cell(*cell), *ch))`: tl is a capture, the cell is the closure's item
+                cap_ok = False
+                if tlv[0] == "param" and tlv[1] == 1 and tlv[2]:
+                    for blk in prog.bodies[sl]["blocks"]:
+                        for st in blk["stmts"]:
+                            rv = st.get("rv") or {}
+                            if rv.get("k") == "agg" and rv.get("closure") == q and str(tlv[2][0]).isdigit() and int(tlv[2][0]) < len(rv["ops"]):
+                                cap_ok = is_tl(strip(simplify(ex.operand(rv["ops"][int(tlv[2][0])]))))
+                ok = cap_ok and mentions(cellv, lambda z: z[0] == "param" and z[1] == 2)
+        lcs = [t for _, t in lcs]
         if ok and len(lcs) == 1:
             run.ok("C06.P2", "Span::localize subtracts the span's own top-left (bounds().0) from every cell", where(lcs[0]))
         else:
